@@ -11,9 +11,18 @@
 (* the root.  Variant "pinned": the code as first read -- the stop test sits inside the per-entry*)
 (* loop (so it is skipped in an empty directory and pre-empts a spokfile that sorts after another*)
 (* entry) and there is no test for the root (named deviations).                                  *)
+(* Spellings.  start and stop are PATHS, and one directory has many spellings: "clean" (absolute *)
+(* and cleaned), "slash" (a trailing separator), "dotted" (a `.` or `x/..` element inside) and   *)
+(* "rel" (relative to the working directory cwd, which then lies at or above the directory).     *)
+(* The property speaks about directories; the code compares strings.  Variant "fixed" begins     *)
+(* with the step Abs that rewrites both paths to the clean spelling.  Variant "pinned" walks the *)
+(* strings as given: the stop test succeeds only when both spellings agree, filepath.Dir turns   *)
+(* "x/" into "x" (same directory, now clean), cleans a dotted path while moving up, and a        *)
+(* relative path bottoms out at "." (the working directory) -- named deviations.                 *)
 EXTENDS Integers, Sequences, FiniteSets, TLC
 
-CONSTANTS Depth, Variant
+CONSTANTS Depth, Variant,
+          Spellings     \* set of <<spelling of start, spelling of stop>> pairs explored
 
 U    == 0 - 1     \* the unrelated directory
 Root == 0 - 2     \* the file-system root (its own parent)
@@ -26,8 +35,11 @@ NoRes    == 0 - 8
 VARIABLES spok,     \* [Dirs -> Kinds]
           before,   \* [Dirs -> BOOLEAN]   an entry sorting before "spokfile"
           after,    \* [Dirs -> BOOLEAN]   an entry sorting after "spokfile"
-          start, stop, cur, phase, result
-vars == <<spok, before, after, start, stop, cur, phase, result>>
+          start, stop, cur, phase, result,
+          curSp, stopSp,   \* spelling of the path held in `start` (the loop variable) / of `stop`
+          cwd              \* working directory (matters for the "rel" spelling only)
+vars == <<spok, before, after, start, stop, cur, phase, result, curSp, stopSp, cwd>>
+cfgv == <<spok, before, after, start, stop>>
 
 Parent(d) == IF d = Root THEN Root ELSE IF d = U \/ d = 0 THEN Root ELSE d - 1
 
@@ -36,43 +48,66 @@ Constrained == start \in Levels /\ stop \in Levels /\ stop <= start
 Hits == {l \in stop..start : spok[l] = "file"}
 Expected == IF Hits = {} THEN NotFound ELSE CHOOSE l \in Hits : \A m \in Hits : m <= l
 Ancestors(d) == IF d = U THEN {U} ELSE 0..d
+AncestorsR(d) == Ancestors(d) \cup {Root}
 
 Init == /\ spok \in [Dirs -> Kinds] /\ before \in [Dirs -> BOOLEAN] /\ after \in [Dirs -> BOOLEAN]
         \* entries that are not named spokfile only matter where they can change the outcome:
         \* next to a spokfile entry, or in the stop directory; elsewhere they are fixed
         /\ \A d \in Dirs : after[d] => before[d] \/ spok[d] # "none"
         /\ start \in Dirs /\ stop \in Dirs
-        /\ cur = start /\ phase = "scan" /\ result = NoRes
+        /\ \E sp \in Spellings : curSp = sp[1] /\ stopSp = sp[2]
+        \* a relative path names a directory at or below the working directory
+        /\ cwd \in Dirs \cup {Root}
+        /\ IF curSp = "rel" \/ stopSp = "rel"
+           THEN /\ curSp = "rel" => cwd \in AncestorsR(start)
+                /\ stopSp = "rel" => cwd \in AncestorsR(stop)
+           ELSE cwd = Root
+        /\ cur = start /\ result = NoRes
+        /\ phase = IF Variant = "fixed" THEN "abs" ELSE "scan"
 
 NonEmpty(d) == d = Root \/ spok[d] # "none" \/ before[d] \/ after[d]
 
+\* fixed: filepath.Abs on both arguments -- from here on the strings are compared as directories
+Abs == /\ phase = "abs"
+       /\ curSp' = "clean" /\ stopSp' = "clean" /\ cwd' = Root /\ phase' = "scan"
+       /\ UNCHANGED <<cfgv, cur, result>>
+
+\* `start == stop` on the strings: the same directory in the same spelling
+SameString == cur = stop /\ curSp = stopSp
+\* filepath.Dir on the string held in `start`: <<directory, spelling>>
+DirOf == CASE curSp = "slash"  -> <<cur, "clean">>                                   \* "x/" -> "x"
+           [] curSp = "dotted" -> <<Parent(cur), "clean">>
+           [] curSp = "rel"    -> IF cur = cwd THEN <<cur, "rel">> ELSE <<Parent(cur), "rel">>   \* Dir(".") = "."
+           [] OTHER            -> <<Parent(cur), "clean">>
+NoParent == DirOf = <<cur, curSp>>
+
 \* read the directory `cur` and look at its entries in name order
 Scan == /\ phase = "scan"
-        /\ IF Variant = "fixed"
+        /\ IF Variant \in {"fixed", "strings"}
            THEN IF cur # Root /\ spok[cur] = "file"
                 THEN result' = cur /\ phase' = "done"
                 ELSE result' = result /\ phase' = "stoptest"
            ELSE \* pinned: for each entry { if it is the spokfile: found; else if start == stop: not found }
-                IF cur # Root /\ spok[cur] = "file" /\ ~(before[cur] /\ cur = stop)
+                IF cur # Root /\ spok[cur] = "file" /\ ~(before[cur] /\ SameString)
                 THEN result' = cur /\ phase' = "done"
-                ELSE IF cur = stop /\ NonEmpty(cur) /\ (cur = Root \/ spok[cur] # "file" \/ before[cur])
+                ELSE IF SameString /\ NonEmpty(cur) /\ (cur = Root \/ spok[cur] # "file" \/ before[cur])
                 THEN result' = NotFound /\ phase' = "done"
                 ELSE result' = result /\ phase' = "up"
-        /\ UNCHANGED <<spok, before, after, start, stop, cur>>
+        /\ UNCHANGED <<cfgv, cur, curSp, stopSp, cwd>>
 
 StopTest == /\ phase = "stoptest"
-            /\ IF cur = stop \/ Parent(cur) = cur
+            /\ IF SameString \/ NoParent
                THEN result' = NotFound /\ phase' = "done"
                ELSE result' = result /\ phase' = "up"
-            /\ UNCHANGED <<spok, before, after, start, stop, cur>>
+            /\ UNCHANGED <<cfgv, cur, curSp, stopSp, cwd>>
 
 Up == /\ phase = "up"
-      /\ cur' = Parent(cur) /\ phase' = "scan"
-      /\ UNCHANGED <<spok, before, after, start, stop, result>>
+      /\ cur' = DirOf[1] /\ curSp' = DirOf[2] /\ phase' = "scan"
+      /\ UNCHANGED <<cfgv, result, stopSp, cwd>>
 
 Stutter == phase = "done" /\ UNCHANGED vars
-Next == Scan \/ StopTest \/ Up \/ Stutter
-Spec == Init /\ [][Next]_vars /\ WF_vars(Scan \/ StopTest \/ Up)
+Next == Abs \/ Scan \/ StopTest \/ Up \/ Stutter
+Spec == Init /\ [][Next]_vars /\ WF_vars(Abs \/ Scan \/ StopTest \/ Up)
 
 Terminates == <>(phase = "done")
 Correct == phase = "done" =>
@@ -82,4 +117,8 @@ Correct == phase = "done" =>
              ELSE LET H == {l \in Ancestors(start) : spok[l] = "file"} IN                           \* unrelated: nearest enclosing
                   IF H = {} THEN result = NotFound ELSE result = (CHOOSE l \in H : \A m \in H : m <= l)
 NeverAboveStop == (Constrained /\ phase # "done") => cur >= stop
+\* the configuration space of the registered checks
+AllSpellings == {<<"clean", "clean">>, <<"slash", "clean">>, <<"clean", "slash">>, <<"slash", "slash">>, <<"dotted", "clean">>,
+                 <<"clean", "dotted">>, <<"rel", "clean">>, <<"clean", "rel">>, <<"rel", "rel">>}
+CleanOnly == {<<"clean", "clean">>}
 ================================================================================
